@@ -249,6 +249,43 @@ def run (ctx):
             r = _resolve_local_import(repo, em_, v.id)
             if isinstance(r, Cls): tp.append(r)
   ctx.floor('ethertype parsers registered', len(set(c.name for c in tp)), 7)
+  def table_classes (f, name):
+    """classes a local `name` can hold when it is bound from a lookup in a table of classes (`T.get(k[, D])`, `T[k]`, a class
+    name, `None`): the dict literal's values, or - for a module-level registry filled elsewhere (decorators) - every class of
+    the module (an over-approximation: more functions analysed).  None when `name` is not bound that way."""
+    defs_ = [(v_, st_, k_) for v_, st_, k_ in q.reaching_assign(f.node, name) if k_ == 'assign']
+    if not defs_ or name in f.params and name not in ('cls',): return None
+    out = []; table = False
+    for v_, st_, k_ in defs_:
+      if v_ is None: return None
+      if isinstance(v_, ast.Constant) and v_.value is None: continue
+      if isinstance(v_, ast.Name):
+        r_ = f.module.lookup(v_.id) or _resolve_local_import(repo, f, v_.id)
+        if isinstance(r_, Cls): out.append(r_); continue
+        return None
+      tb_ = None; extra_ = []
+      if isinstance(v_, ast.Call) and call_name(v_) == 'get' and isinstance(v_.func, ast.Attribute): tb_ = v_.func.value; extra_ = v_.args[1:2]
+      elif isinstance(v_, ast.Subscript) and not isinstance(v_.slice, ast.Slice): tb_ = v_.value
+      if tb_ is None: return None
+      for d_ in extra_:
+        r_ = f.module.lookup(d_.id) if isinstance(d_, ast.Name) else None
+        if isinstance(r_, Cls): out.append(r_)
+      lit_ = tb_ if isinstance(tb_, ast.Dict) else None
+      if lit_ is None and isinstance(tb_, ast.Name):
+        r_ = f.module.lookup(tb_.id)
+        if isinstance(r_, tuple) and r_[0] == 'const' and isinstance(r_[2], ast.Dict): lit_ = r_[2]
+        elif r_ is None: return None
+      if lit_ is not None and lit_.values:
+        got_ = [f.module.lookup(x_.id) for x_ in lit_.values if isinstance(x_, ast.Name)]
+        if not got_ or not all(isinstance(x_, Cls) for x_ in got_): return None
+        out += got_; table = True
+      elif lit_ is not None or isinstance(tb_, (ast.Name, ast.Attribute)):
+        # a registry that starts empty: filled by registrations elsewhere in the module
+        if not any(isinstance(t_, ast.Subscript) and norm(t_.value) == norm(tb_) and isinstance(v2_, ast.Name) for fn_ in ast.walk(f.module.tree) if isinstance(fn_, ast.FunctionDef)
+                   for t_, v2_, s2_, k2_ in q.stores_in(fn_, nested=True)): return None
+        out += list(f.module.classes.values()); table = True
+      else: return None
+    return out if table else None
   def resolve_call (f, c):
     """list of Func possibly invoked by call c inside f"""
     fn = c.func; out = []
@@ -256,6 +293,14 @@ def run (ctx):
       r = f.module.lookup(fn.id) or _resolve_local_import(repo, f, fn.id)
       if isinstance(r, Cls): out += cls_parse_targets(r)
       elif isinstance(r, Func): out.append(r)
+      elif r is None and fn.id == 'cls' and f.cls is not None and f.is_classmethod and f.params and f.params[0] == 'cls' and any(kw_.arg == 'raw' for kw_ in c.keywords):
+        # `cls(raw=...)` in a classmethod of a mixin / base: constructs whichever subclass it was called on
+        for sub in [f.cls] + list(repo.subclasses(f.cls)):
+          if sub.module.name.startswith(PK): out += cls_parse_targets(sub)
+    elif isinstance(fn, ast.Attribute) and isinstance(fn.value, ast.Name) and fn.value.id != 'self' and table_classes(f, fn.value.id) is not None:
+      for k_ in table_classes(f, fn.value.id):
+        t = k_.find_method(fn.attr)
+        if t is not None and t not in out: out.append(t)
     elif isinstance(fn, ast.Attribute):
       base = fn.value
       if isinstance(base, ast.Name) and base.id in ('self', 'cls') and f.cls is not None:
